@@ -85,7 +85,7 @@ package meta
 
 //@ ghost pred garbKeyPresent() bool
 //@ callrule c02_garbage_key_lookup in markGarbageInContainer
-//@   property C02 C01
+//@   property C02 C01 C09
 //@   callee bytes.Equal
 //@   pureeffect
 //@   defines result == garbKeyPresent()
@@ -93,11 +93,11 @@ package meta
 // keeps at least that mark: the stored mark is rewritten only to upgrade a redundant-copy mark
 // - which still reports the object as available - to the default one, never the other way.
 //@ callrule c01_existing_mark_is_only_upgraded in markGarbageInContainer
-//@   property C01
+//@   property C01 C09
 //@   callee (*bbolt.Bucket).Put
 //@   requires [existing_mark_rewritten_only_to_the_default_mark] garbKeyPresent() ==> len(a1) == 0
 //@ callrule c02_mark_collaborators in markGarbageInContainer
-//@   property C02 C01
+//@   property C02 C01 C09
 //@   callee (*bbolt.Cursor).*, (*bbolt.Bucket).*, metabase.get, metabase.inGarbage, metabase.getObjAttribute, metabase.mkGarbageKey, (*oid.Address).*, (*object.Object).*, (object.Object).*
 //@   pureeffect
 //@ func markGarbageInContainer
@@ -711,3 +711,24 @@ package meta
 //@ func (*resyncHandler).handle
 //@   property C09
 //@   ensures [object_joins_the_batch] err == nil && !resultOf(err, "dynamic:*") && !resultOf(err, "(*metabase.resyncHandler).flush") ==> len(rh.batch) == old(len(rh.batch)) + 1 && rh.batch[len(rh.batch) - 1] == obj
+
+// ---- C09 (garbage collection): a removed container is reported as empty - its bucket, with
+// every object's metadata and mark, is then dropped while the blobs stay for the next resync
+// to find - only after a listing that was allowed to return at least one object returned none.
+//@ ghost pred containerSeenRemoved() bool
+//@ callrule c09_gc_container_mark in (*DB).GetGarbage$1$1
+//@   property C09
+//@   callee metabase.containerMarkedGC
+//@   pureeffect
+//@   defines result == containerSeenRemoved()
+//@ callrule c09_gc_listing_of_a_removed_container_has_room in (*DB).GetGarbage$1$1
+//@   property C09
+//@   callee metabase.listGarbageObjects
+//@   pureeffect
+//@   requires [listing_of_a_removed_container_may_return_an_object] containerSeenRemoved() ==> a3 > 0
+//@ func (*DB).GetGarbage$1
+//@   property C09
+//@   captured [positive_limit] limit > 0
+//@ func (*DB).GetGarbage$1$1
+//@   property C09
+//@   captured [positive_limit] limit > 0
